@@ -267,6 +267,7 @@ def c03_monitor(ctx, tr, ix):
                 dtv = a["obs"]["total_value"] - day_start_tv[t]
                 mf = a["mgmt_fees"] - mfee0[t]
                 want = dtv - flows[t] + mf - split_gain[t]
+                sg_today = split_gain[t]
                 split_gain[t] = 0
                 # daily_pnl is not in the snapshot's obs: recompute from the account's parts exposed there
                 dp = e.get("daily_pnl", {}).get(t)
@@ -276,7 +277,15 @@ def c03_monitor(ctx, tr, ix):
                                                         (B.d8(s["delisted"]) > today8 or any(h["id"] == s["id"] and h["long"]["qty"] == 0 for h in a["holdings"])) for s in S["stocks"])
                     liquidated = (not a["holdings"]) and a["total_cash"] == 0
                     if not near(dp, want, 1e-6) and abs(dp - want) > 1e-4 and not liquidated:
-                        if sys_fee[t] > 0 and abs(dp - (want - sys_fee[t])) <= 1e-4 + 1e-9 * abs(want):
+                        # shares reinvested and split the same morning: the half share lost or won by rounding the split is booked as trading P&L of
+                        # the reinvested shares (it is part of daily_pnl there), otherwise it is outside daily_pnl — either way bounded by half a share
+                        if sg_today and sys_fee[t] > 0 and abs(dp - (want + sg_today - sys_fee[t])) <= 1e-4 + 1e-9 * abs(want):
+                            ctx.witness("C03.5", {"kind": "daily_pnl_identity", "reinvestment_fee": True},
+                                        "%s %s: reported daily P&L %r counts the reinvestment fee %r that was never taken out of cash (change in value net of flows %r, split rounding %r booked as P&L)"
+                                        % (when.date(), t, dp, sys_fee[t], want, sg_today), rp)
+                        elif sg_today and abs(dp - (want + sg_today)) <= 1e-4 + 1e-9 * abs(want):
+                            ctx.stats["c03_split_rounding_inside_daily_pnl"] += 1
+                        elif sys_fee[t] > 0 and abs(dp - (want - sys_fee[t])) <= 1e-4 + 1e-9 * abs(want):
                             ctx.witness("C03.5", {"kind": "daily_pnl_identity", "reinvestment_fee": True},
                                         "%s %s: reported daily P&L %r counts the reinvestment fee %r that was never taken out of cash (change in value net of flows %r)" % (when.date(), t, dp, sys_fee[t], want), rp)
                         elif t == "FUTURE" and first_day_init_fut and when.date() == first_day_init_fut:
